@@ -55,7 +55,7 @@ def complete_candidates(o, seed):
             else:
                 out.append([k, b.hex()])
         yield {"items": out, "quitonerror": rnd.choice([0, 1, 2]), "validate": rnd.choice([1, 1, 0]),
-               "parsed": rnd.choice([True, True, False]), "handler": rnd.choice([True, True, False])}
+               "parsed": rnd.choice([True, True, False]), "handler": rnd.choice([True, True, False, "falsy"])}
 
 
 def parse_candidates(o, seed):
@@ -74,6 +74,13 @@ def parse_candidates(o, seed):
         f = streams.frame(p)
         yield {"message": f.hex(), "validate": rnd.choice([0, 1, 3, 2]), "labelmsm": rnd.choice([1, 2])}
         yield {"message": streams.damage(f, rnd).hex(), "validate": rnd.choice([0, 1, 1, 3]), "labelmsm": 1}
+    for i in range(40):
+        p = streams.good_payloads(rnd)
+        f = bytearray(streams.frame(p))
+        f[2] = (f[2] + rnd.choice([1, 2, 3, 255, 254])) & 255  # declared length differs from the enclosed payload
+        if rnd.random() < 0.5:
+            f[1] ^= rnd.choice([1, 2, 4, 0x80])
+        yield {"message": bytes(f).hex(), "validate": 0}
     for ident, p in encoder.corpus(seed, per_type=1, patterns=("random",)):
         f = streams.frame(p)
         yield {"message": f.hex(), "validate": 1}
@@ -88,6 +95,12 @@ def short_payloads():
         yield bytes([0xFE, b])
     yield bytes([0x3E, 0xD0])
     yield bytes([0xFE, 0xC0, 0x2A])
+    for b in (0xC1, 0xCF, 0xD0, 0xDF, 0xE0, 0xFF):  # 4076 / 4077-4095 with and without a third byte
+        yield bytes([0xFE, b])
+        yield bytes([0xFF, b])
+    for body in (b"\x01\x23", b"\x01\x23\x45", b"\x00" * 6):  # payloads of type 3376 that look like a whole frame
+        f = b"\xd3" + len(body).to_bytes(2, "big") + body + b"\xaa\xbb\xcc"
+        yield f
 
 
 def message_candidates(o, seed, focus=None):
@@ -164,6 +177,9 @@ def generic_replay(o, seed):
         from spec import streams
         rnd = random.Random(seed)
         cands = [{"payload": streams.payload_for(4095, k, rnd).hex()} for k in (2, 3, 255, 256, 257, 511, 512, 1022, 1023)]
+        for tail in (b"\x01\x23", b"\x0f\xf0\xaa", b"\x00\x01"):  # same integer value, different length (history-dependent caches)
+            cands += [{"payload": (b"\x00" * k + tail).hex()} for k in (0, 1, 2, 0)]
+        cands += [{"payload": "d300020123aabbcc"}, {"payload": "d30003012345aabbcc"}]  # payloads that look like frames
         cands += [{"payload": streams.good_payloads(rnd).hex()} for _ in range(60)]
         return try_candidates("serialize", iter(cands), key=lambda i, r: "serialize")
     if n.endswith(".__setattr__"):
